@@ -35,7 +35,7 @@ static bool inv(C& c)
         return false;
     if (!vf_wf_umap(c.m_keyed_elements))
         return false;
-    if (c.m_used_size > n || c.m_keyed_elements.m_size != c.m_used_size || c.m_keyed_elements.m_reserved < n)
+    if (c.m_used_size > n || c.m_keyed_elements.m_size != c.m_used_size || !c.m_keyed_elements.guaranteed(n))
         return false;
     if (c.CE.l != &c.CL || c.CE.i != vf_list_at(c.CL, c.m_used_size, n))
         return false;
